@@ -128,7 +128,7 @@ pub fn run(ctx: &Ctx, order: bool) -> Result<Evidence, String> {
     let qcfg = gen::QueryCfg::default();
     // names that need no escape or only \\ and \/ (decoded by the library), incl. non-ASCII
     let mut qcfg_h = gen::QueryCfg::default();
-    qcfg_h.names = ["a\\b", "a/b", "\\", "/", "x y", "\u{e9}", "a.b", "[0]", "$", "@", "*", "0", "-1", "", "a", "\u{1f600}", "gr\u{f6}\u{df}e\\breite", "\u{446}\u{435}\u{43d}\u{430}/\u{448}\u{442}", "\u{e9}\\", "/\u{1f600}"].iter().map(|s| s.to_string()).collect();
+    qcfg_h.names = ["a\\b", "a/b", "\\", "/", "x y", "\u{e9}", "a.b", "[0]", "$", "@", "*", "0", "-1", "", "a", "\u{1f600}", "gr\u{f6}\u{df}e\\breite", "\u{446}\u{435}\u{43d}\u{430}/\u{448}\u{442}", "\u{e9}\\", "/\u{1f600}", "a\u{7f}b", "line\u{85}break", "\u{9f}", "\u{feff}x", "\u{fffe}", "\u{ffff}", "\u{2028}", "\u{ad}"].iter().map(|s| s.to_string()).collect();
     let mut dcfg_h = gen::DocCfg::default();
     dcfg_h.keys = qcfg_h.names.clone();
     let hdocs_rand: Vec<Doc> = (0..ctx.tier.pick(150, 1500)).map(|_| Doc::new(&gen::random_doc(&mut rng, &dcfg_h))).collect();
@@ -142,17 +142,41 @@ pub fn run(ctx: &Ctx, order: bool) -> Result<Evidence, String> {
     for k in 0..e1_texts.len().min(400) {
         bq.push(e1_texts[(k * 7919) % e1_texts.len()].clone());
     }
+    for q in gen::long_union_queries(ctx.seed) {
+        let t = render(&q, &mut Spelling::canonical());
+        bq.push((q, t));
+    }
     let n_c0 = bq.len() * bdocs.len();
     let hdocs: Vec<Doc> = gen::huge_docs().iter().map(Doc::new).collect();
     let hq: Vec<(Query, String)> = gen::huge_queries().iter().map(|t| (analyze(t).ast.unwrap_or_else(|| panic!("huge query does not parse: {}", t)), t.to_string())).collect();
     let n_c = n_c0 + hq.len() * hdocs.len();
+    // family D: filters over easily confused queries and one-of / none-of chains (shared with C05)
+    let mut xcases: Vec<(Query, String, Doc)> = vec![];
+    {
+        let mut xr = Rng::stream(ctx.seed, 4242);
+        let mut raw = crate::c05::confusable_cases(&mut xr, 12);
+        let keep_every = ctx.tier.pick(4, 1);
+        raw = raw.into_iter().enumerate().filter(|(k, _)| *k < 1400 || k % keep_every == 0).map(|(_, c)| c).collect();
+        raw.extend(crate::c05::in_list_cases(&mut xr, ctx.tier.pick(1500, 30_000)));
+        for (t, d) in raw {
+            let ast = analyze(&t).ast.unwrap_or_else(|| panic!("family D query does not parse: {}", t));
+            xcases.push((ast, t, Doc::new(&d)));
+        }
+    }
+    let n_x = xcases.len();
     let seed = ctx.seed;
     let trace_every = 7usize;
 
     let work = |i: usize, acc: &mut Acc| {
         let (ast, text, doc): (Query, String, &Doc);
         let parsed;
-        if i < n_a {
+        if i >= n_a + n_b + n_c {
+            let (q, t, d) = &xcases[i - n_a - n_b - n_c];
+            ast = q.clone();
+            text = t.clone();
+            doc = d;
+            acc.count("family_confusable_and_in_list_filters", 1);
+        } else if i < n_a {
             let (q, t) = &e1_texts[i / n_fixed_docs];
             ast = q.clone();
             text = t.clone();
@@ -311,7 +335,7 @@ pub fn run(ctx: &Ctx, order: bool) -> Result<Evidence, String> {
             Verdict::Violated(m) => ctx.violate(&m, judge::replay_json("query", &text, doc, &j)),
         }
     };
-    let acc = par_run(ctx, n_a + n_b + n_c, work);
+    let acc = par_run(ctx, n_a + n_b + n_c + n_x, work);
     if acc.counters.get("HARNESS_render_parse_mismatch").copied().unwrap_or(0) > 0 {
         return Err(format!("renderer and oracle parser disagree on {} generated queries", acc.counters["HARNESS_render_parse_mismatch"]));
     }
